@@ -94,6 +94,8 @@ def kwargs_menu(name, shape):
         out.append({"axis": -1, "norm": "ortho"})
         out.append({"workers": 2})                       # keywords of scipy.fft only (the reference's own interface)
         out.append({"overwrite_x": False, "axis": 0})
+        out.append({"axis": np.array(0)})                   # the axis as a 0-d integer array
+        out.append({"axis": np.int64(-1), "n": np.array(3)})
     else:
         two = name.endswith("2")
         axes_opts = [None] + [p for p in itertools.permutations(range(nd), 2)]
@@ -125,6 +127,8 @@ def kwargs_menu(name, shape):
             out.append({"axes": nd - 1})                     # a bare integer where a sequence is usual (scipy accepts both)
             out.append({"s": 5, "axes": -1})
             out.append({"s": 5})
+            out.append({"axes": ()})                         # no axis transformed: the input comes back (its own dtype)
+            out.append({"s": (), "axes": ()})
             out.append({"s": tuple([3, 4, 2][:nd]), "axes": tuple(range(nd)), "norm": "ortho", "_positional": "all"})
             out.append({"s": None, "axes": tuple(range(max(0, nd - 2), nd)), "norm": "forward", "_positional": "all"})
             # lengths of s and axes that do not match, more entries than the rank: the reference refuses
@@ -183,7 +187,7 @@ def fft_case(case, res):
                 nel0 = max(1, int(np.prod(want.shape)))
                 lim = 64 * float(np.finfo(np.float32 if want.dtype in (np.complex64, np.float32) else np.float64).eps) * nel0 * 2
                 # (numpy.fft REFUSING a spelling that scipy.fft accepts, e.g. a bare integer for axes, is not a disagreement)
-                if (aerr is None and (alt.shape != want.shape or (want.size and float(np.max(np.abs(alt - want))) > lim))) or \
+                if (aerr is None and (alt.shape != want.shape or (want.size and float(np.max(np.abs(alt.astype(complex) - want.astype(complex)))) > lim))) or \
                         (aerr is not None and name in ("irfft", "irfft2", "irfftn", "hfft") and not isinstance(aerr, TypeError)):
                     # degenerate calls (e.g. irfft* over a length-1 axis: output length 2*(1-1) = 0) on which the
                     # reference libraries themselves disagree
@@ -251,9 +255,9 @@ def fft_case(case, res):
                     res.violation(f"{site}|dtype", f"dtype {got.dtype}, scipy.fft gives {want.dtype} [{sub}]", case, sub)
                     continue
                 nel = max(1, int(np.prod([want.shape[a] for a in range(nd)])))
-                eps = float(np.finfo(want.dtype).eps)
+                eps = float(np.finfo(want.dtype).eps) if want.dtype.kind in "fc" else 0.0      # (no axis transformed: input dtype)
                 tol = 32 * eps * nel * 2.0
-                e = float(np.max(np.abs(got - want))) if want.size else 0.0
+                e = float(np.max(np.abs(got.astype(complex) - want.astype(complex)))) if want.size else 0.0
                 if not res.ratio("err vs scipy.fft / budget", e, tol):
                     res.violation(f"{site}|values", f"max |pb - scipy.fft.{name}| = {e:.3g} (budget {tol:.3g}) [{sub}]", case, sub)
                     continue
